@@ -24,7 +24,15 @@ def build(name, fresh=False, **kw):
   key = (name, tuple(sorted(kw.items())))
   if not fresh and key in _CACHE:
     return _CACHE[key]
-  out = BUILDERS[name](**kw)
+  backend = kw.pop('backend', None)
+  if backend:
+    import jax
+    from fedjax.core import for_each_client as fec
+    be = fec.ForEachClientPmapBackend(jax.local_devices()[:int(backend[4:])]) if backend.startswith('pmap') else backend
+    with fec.for_each_client_backend(be):
+      out = BUILDERS[name](**kw)
+  else:
+    out = BUILDERS[name](**kw)
   if not fresh:
     _CACHE[key] = out
   return out
